@@ -134,7 +134,11 @@ func genConfig(r *Rng, fields []driver.VerifField) driver.VerifConfig {
 	mode := r.Intn(6) // 1: mixed, 2: everything random, others: mostly default
 	for _, f := range fields {
 		v := f.Default
-		if (mode == 2) || (mode == 1 && r.Bool()) || (mode != 1 && mode != 2 && r.P(1, 6)) {
+		vary := (mode == 2) || (mode == 1 && r.Bool()) || (mode != 1 && mode != 2 && r.P(1, 6))
+		if vary && f.Saved && f.URLParam == "" && !r.P(1, 8) {
+			vary = false // saved options without URL parameter put the case into class F26: keep most cases outside
+		}
+		if vary {
 			switch f.Kind {
 			case "string":
 				if len(f.Choices) > 0 && !r.P(1, 8) {
